@@ -303,3 +303,30 @@ func VerifC11CSVBytes() {
 	}
 	verifCover("C11/csv/end")
 }
+
+// ---- (5) expression strings ----
+
+var c11ExprAlphabet = []string{".", "a", "[", "]", "(", ")", "|", ",", "\"", "1", " ", "*", "{", "}", ":", "$", "=", "-", "+", "/", "?", "#", "\n", "<", "!", "@", "%", "\\"}
+
+// VerifC11ExprStrings: every expression string up to the length bound over an alphabet of the characters the
+// lexer rules key on goes through the lexer (engine model over the real rule table), the real token actions,
+// post-processing, shunting-yard and tree builder, and — when it parses — is evaluated on a small document:
+// an answer or an error, never a panic.
+func VerifC11ExprStrings() {
+	n := verifChoice("len", verifParam("maxlen", 3)) + 1
+	text := ""
+	for i := 0; i < n; i++ {
+		text += c11ExprAlphabet[verifChoice("c"+verifItoa(int64(i)), len(c11ExprAlphabet))]
+	}
+	InitExpressionParser()
+	tree, err := ExpressionParser.ParseExpression(text)
+	if err != nil {
+		verifCover("C11/exprs/rejected")
+		return
+	}
+	if tree != nil {
+		_, _ = vEval(tree, c11Doc(9, "1"))
+		_, _ = vEval(tree, c11Doc(5, "1"))
+	}
+	verifCover("C11/exprs/parsed")
+}
